@@ -102,10 +102,16 @@ class Gen:
     # ---- declarations
     def declare(self, nvars=6):
         r = self.rng
-        if 'dt' in self.th and r.random() < 0.7:
+        if 'dt' in self.th and r.random() < 0.8:
             name = self.fresh('D')
             elem = r.choice([INT if 'ints' in self.th else BOOL, BOOL])
-            cons = [(self.fresh('nil'), []), (self.fresh('cons'), [(self.fresh('hd'), elem), (self.fresh('tl'), name)])]
+            if r.random() < 0.5:
+                cons = [(self.fresh('nil'), []), (self.fresh('cons'), [(self.fresh('hd'), elem), (self.fresh('tl'), name)])]
+            else:
+                # enumeration-like: several nullary constructors (and sometimes one with a field)
+                cons = [(self.fresh(c), []) for c in r.sample(['red', 'green', 'blue', 'cyan', 'pink'], r.choice([2, 3, 4]))]
+                if r.random() < 0.4:
+                    cons.append((self.fresh('box'), [(self.fresh('get'), elem)]))
             self.dts.append((name, cons))
             decl = syn(('declare-datatype', name, tuple((c,) + tuple((s, so) for s, so in sels) if sels else (c,) for c, sels in cons)))
             self.cmds.append(decl)
@@ -170,7 +176,7 @@ class Gen:
             return app('fp', [self.const(bv(1)), self.const(bv(e)), self.const(bv(s - 1))], sort)
         for name, cons in self.dts:
             if sort == name:
-                return leaf(cons[0][0], sort)
+                return leaf(r.choice([c for c, sels in cons if not sels])[0] if False else r.choice([c for c, sels in cons if not sels]), sort)
         v = self.var_of(sort)
         if v is not None:
             return v
@@ -344,7 +350,9 @@ class Gen:
             return app('store', [self.term(sort, d), self.term(sort[1], d), self.term(sort[2], d)], sort)
         for name, cons in self.dts:
             if sort == name and r.random() < 0.7:
-                c, sels = cons[1]
+                c, sels = r.choice(cons)
+                if not sels:
+                    return leaf(c, sort)
                 return app(c, [self.term(so, d) for _, so in sels], sort)
         return self.base(sort)
 
